@@ -49,7 +49,7 @@ pub fn world_knobs(rng: &mut Rng, plan: &mut Plan, faulty: bool) {
     if faulty {
         let f = &mut w.faults;
         // a random subset of fault kinds per run
-        let mut on = |p: u32, rng: &mut Rng| if rng.chance(1, 2) { p } else { 0 };
+        let on = |p: u32, rng: &mut Rng| if rng.chance(1, 2) { p } else { 0 };
         f.c2s_drop = on(20, rng);
         f.c2s_dup = on(30, rng);
         f.c2s_delay = on(50, rng);
